@@ -274,8 +274,11 @@ class SymWorld(World):
         c = core.ctx()
         rng = self.rng
         names = [(nm, v) for nm, v in self.inputs.items() if v.id in c.ensured]
-        for _ in range(tries):
+        for attempt in range(tries):
             vals, d = {}, {}
+            # every third attempt the unbounded-below reals are scaled down together: thin regions around 0 (tolerance
+            # guards, faint images) are otherwise never sampled
+            mag = (Fraction(1), Fraction(1), Fraction(1, 10 ** 9), Fraction(1), Fraction(1, 10 ** 4), Fraction(1, 10 ** 12))[attempt % 6]
             for nm, v in names:
                 info = v.info or {}
                 lo, hi = info.get('lo'), info.get('hi')
@@ -287,6 +290,8 @@ class SymWorld(World):
                     a = Fraction(lo) if lo is not None else (Fraction(1, 32) if info.get('pos') else (Fraction(0) if info.get('nonneg') else Fraction(-3)))
                     b = Fraction(hi) if hi is not None else a + 3
                     q = a + (b - a) * Fraction(rng.randint(1, 95), 96)
+                    if mag != 1 and (lo is None or Fraction(lo) <= 0) and not info.get('pos') and nm.startswith(('img', 'a_', 'a', 'e_', 'v')) :
+                        q = q * mag
                     if info.get('nz') and q == 0:
                         q = Fraction(1, 2)
                 vals[nm] = [q.numerator, q.denominator]
